@@ -363,8 +363,10 @@ pub fn finish_run(
         let path = format!("{}/replays/{}-{}-{}.json", VERIF_DIR, id, tier.name(), i);
         let body = json!({"property": id, "key": v.key, "message": v.msg, "case": v.case});
         std::fs::write(&path, serde_json::to_string_pretty(&body).unwrap()).ok();
-        lines.push(format!("VIOLATION property={} replay={}", id, path));
-        eprintln!("  [{}] {} :: {}", id, v.key, v.msg);
+        if i < 10 {
+            lines.push(format!("VIOLATION property={} replay={}", id, path));
+            eprintln!("  [{}] {} :: {}", id, v.key, v.msg);
+        }
     }
     for (v, k) in &known_hits {
         println!(
